@@ -35,7 +35,15 @@ func JWT(name string, wellFormed bool, nonceKind int, nonce string, naud int, au
 
 func KeySet(name string) jwk.Set { return NativeKeySet(name) }
 
-func SameKeySet(a, b jwk.Set) bool { return a == b }
+// SameKeySet compares key sets by content.
+func SameKeySet(a, b jwk.Set) bool {
+	if a == nil || b == nil {
+		return a == nil && b == nil
+	}
+	ja, _ := json.Marshal(a)
+	jb, _ := json.Marshal(b)
+	return string(ja) == string(jb)
+}
 
 type jsonDoc struct {
 	kind    int
@@ -146,4 +154,14 @@ func TaintOf(s string) int {
 		}
 	}
 	return t
+}
+
+// JWKSDoc returns the JSON document of the named key set (engine: an abstract document that
+// jwk.Parse maps back to the named set).
+func JWKSDoc(name string) string {
+	b, err := json.Marshal(NativeKeySet(name))
+	if err != nil {
+		panic(err)
+	}
+	return string(b)
 }
